@@ -151,5 +151,5 @@ func report(c *vk.Ctx, p *sem.Prepared, rc *ref.Case, backend string, mode drive
 	if o.Panic != "" {
 		w["panic_stack"] = o.Panic
 	}
-	c.Violation(sem.ClassifyCheck("C01", rc, rq, k, o), key, what, w)
+	c.Violation(sem.ClassifyCheck("C01", rc, rq, k, o, mode), key, what, w)
 }
